@@ -397,6 +397,48 @@ static void run_roundtrip(int which /*1 builtin,2 isal,3 both*/)
 }
 
 /* ================================================================ C02 */
+/* C02: fragment lists far longer than k+m in which ONE index is supplied 255, 256, 257, 512, 65536 (thorough: also 65537 and
+ * 131072) times - counts at which an 8- or 16-bit tally of copies comes round - while another data fragment is missing.
+ * decode, reconstruct of the missing one and reconstruct of the repeated one: success means the exact bytes, and the
+ * caller's fragments are as they were. */
+static void check_long_lists(ctx_t *x)
+{
+    const cfg_t *c = &x->c; int n = cfg_n(c);
+    if (c->be == EC_BACKEND_NULL || cfg_tol(c) < 1 || c->k < 2 || x->nstr < 1) return;
+    stripe_t *s = &x->st[0];
+    static const long counts_q[] = { 255, 256, 257, 512, 65536 }, counts_t[] = { 255, 256, 257, 512, 65536, 65537, 131072 };
+    const long *counts = MO.thorough ? counts_t : counts_q; int ncounts = MO.thorough ? 7 : 5;
+    for (int ci = 0; ci < ncounts; ci++) for (int side = 0; side < 2; side++) {
+        long cnt = counts[ci]; int rep = side ? c->k : 1, lost = 0;       /* the repeated index: data fragment 1 or the first parity; lost: data fragment 0 */
+        if (side && c->m < 1) continue;
+        if (!mon_case("%s|len=%llu|long-list|index-%d-supplied-%ld-times|lost=%d", x->ck, (unsigned long long)s->len, rep, cnt, lost)) continue;
+        long total = cnt + n; char **lst = malloc(sizeof(char *) * (size_t)total); long q = 0;
+        uint8_t **cp = malloc(sizeof(uint8_t *) * (size_t)n);
+        for (int f = 0; f < n; f++) { cp[f] = NULL; if (f == lost) continue; if (posix_memalign((void **)&cp[f], 16, s->flen)) abort(); memcpy(cp[f], s->frag[f], s->flen); }
+        int front = (ci + side) & 1;
+        if (front) for (long i = 0; i < cnt; i++) lst[q++] = (char *)cp[rep];
+        for (int f = 0; f < n; f++) if (f != lost && f != rep) lst[q++] = (char *)cp[f];
+        if (!front) for (long i = 0; i < cnt; i++) lst[q++] = (char *)cp[rep];
+        char *out = NULL; uint64_t ol = 0;
+        int rc = liberasurecode_decode(x->desc, lst, (int)q, s->flen, 0, &out, &ol);
+        mon_count("evaluations", 3); mon_count("long_list_calls", 3);
+        if (rc > 0) mon_viol(PROP, "positive-rc", "decode returned %d", rc);
+        if (rc == 0) { if (ol != s->len || memcmp(out, x->data[0], s->len)) mon_viol(PROP, "decode-wrong-bytes", "decode of a list with index %d supplied %ld times (data fragment %d missing) returned success with other bytes", rep, cnt, lost); liberasurecode_decode_cleanup(x->desc, out); }
+        for (int dsel = 0; dsel < 2; dsel++) {
+            int dest = dsel ? rep : lost; uint8_t *o = malloc(s->flen); memset(o, 0, s->flen);
+            rc = liberasurecode_reconstruct_fragment(x->desc, lst, (int)q, s->flen, dest, (char *)o);
+            if (rc > 0) mon_viol(PROP, "positive-rc", "reconstruct returned %d", rc);
+            if (rc == 0 && memcmp(o, s->frag[dest], s->flen)) mon_viol(PROP, "reconstruct-wrong-bytes", "reconstruct(%d) from a list with index %d supplied %ld times returned success with another fragment", dest, rep, cnt);
+            free(o);
+        }
+        for (int f = 0; f < n; f++) if (cp[f] && memcmp(cp[f], s->frag[f], s->flen)) { mon_viol(PROP, "input-fragment-modified", "fragment %d of the caller was modified by a call on a list with index %d supplied %ld times", f, rep, cnt); break; }
+        for (int f = 0; f < n; f++) free(cp[f]);
+        free(cp); free(lst);
+        mon_distinct("nontrivial", mon_hash_u64((uint64_t)cnt * 2 + (uint64_t)side, mon_hash_str(x->ck, 77)));
+        mon_end();
+    }
+}
+
 static void run_nosilent(int which)
 {
     static cfg_t cfgs[1200];
@@ -481,6 +523,7 @@ static void run_nosilent(int which)
                     }
                 }
             }
+            if (ci % (MO.thorough ? 1 : 3) == 0) check_long_lists(&x);
             mon_count0("configs", 1);
         }
         ctx_close(&x);
@@ -1015,7 +1058,19 @@ static void damage(uint8_t *f, uint64_t flen, int kind, rng_t *r, int n)
 {
     switch (kind) {
     case DMG_PAYLOAD_BIT: if (flen > 80) { uint64_t b = 80 + rng_below(r, (uint32_t)(flen - 80)); f[b] ^= (uint8_t)(1u << rng_below(r, 8)); } break;
-    case DMG_IDX_RANGE: other_payload(f, flen, r); ref_put32(f + REF_OFF_IDX, (uint32_t)(n + 1 + (int)rng_below(r, 5))); ref_hdr_reseal(f, 0); break;
+    case DMG_IDX_RANGE: { /* an index beyond the stripe: just beyond, or the fragment's own index with high bits set (what a
+                           * narrower or signed reading would take for a legal one), or the top of the 32-bit range */
+        other_payload(f, flen, r); uint32_t own = ref_get32(f + REF_OFF_IDX), v;
+        switch (rng_below(r, 10)) {
+        case 0: v = 0x80000000u | own; break;
+        case 1: v = 0xffffffffu - rng_below(r, 40); break;
+        case 2: v = 0x7fffffffu - rng_below(r, 3); break;
+        case 3: v = own + 0x100u * (1 + rng_below(r, 3)); break;
+        case 4: v = own + 0x10000u; break;
+        case 5: v = 0x80000000u + rng_below(r, 64); break;
+        default: v = (uint32_t)(n + 1 + (int)rng_below(r, 5)); break;
+        }
+        ref_put32(f + REF_OFF_IDX, v); ref_hdr_reseal(f, 0); } break;
     case DMG_BACKEND_ID: other_payload(f, flen, r); f[REF_OFF_BEID] ^= (uint8_t)(1 + rng_below(r, 7)); ref_hdr_reseal(f, 0); break;
     case DMG_BACKEND_VER: other_payload(f, flen, r); ref_put32(f + REF_OFF_BEVER, ref_get32(f + REF_OFF_BEVER) + 1); ref_hdr_reseal(f, 0); break;
     case DMG_LIB_VER: other_payload(f, flen, r); ref_put32(f + REF_OFF_LIBVER, ref_get32(f + REF_OFF_LIBVER) + 1 + (rng_below(r, 2) ? 0x010000u : 0)); ref_hdr_reseal(f, 0); break;
@@ -1589,35 +1644,7 @@ static void run_long_sequence(void)
  * (b) the backend library unloaded (last instance gone) and loaded again while an instance of ANOTHER backend was created or
  *     destroyed in between, so that the library may come back at another address.
  * Every instance encodes its own object and decodes / reconstructs it with the same two erasure lists. */
-static int churn_use(const cfg_t *c, int d, uint64_t seed, const char *what)
-{
-    int n = c->k + c->m; uint64_t len = (uint64_t)c->k * 24 + 5; uint8_t *data = malloc(len); rng_t r; rng_seed(&r, MO.seed, seed); rng_fill(&r, data, len);
-    stripe_t st; int ok = 1;
-    cfg_use(c);
-    if (stripe_make(&st, d, c, data, len) != 0) { mon_viol(PROP, "churn-encode-failed", "%s: encode failed", what); free(data); return 0; }
-    uint8_t *exp[64]; uint64_t ef = model_fragment_len(c, len);
-    for (int f = 0; f < n; f++) exp[f] = malloc(ef);
-    model_stripe(c, data, len, 0, exp);
-    if (c->be != EC_BACKEND_NULL) for (int f = 0; f < n && ok; f++) if (ef != st.flen || memcmp(exp[f], st.frag[f], ef)) { mon_viol(PROP, "churn-encode-differs-from-model", "%s: fragment %d differs from the model", what, f); ok = 0; }
-    for (int f = 0; f < n; f++) free(exp[f]);
-    int tol = cfg_tol(c);
-    /* the first and the last call of every instance use the same erasure list (so that the next instance's first call repeats
-     * the previous instance's last) */
-    for (int e = 0; e < 3 && ok && c->be != EC_BACKEND_NULL; e++) {
-        uint32_t er = e == 1 ? 1u : (tol >= 2 && c->k >= 2 ? 3u : 1u);
-        if (tol < 1) break;
-        char *lst[32]; int cnt = 0; for (int f = 0; f < n; f++) if (!(er >> f & 1)) lst[cnt++] = (char *)st.frag[f];
-        char *out = NULL; uint64_t ol = 0; int rc = liberasurecode_decode(d, lst, cnt, st.flen, 0, &out, &ol);
-        if (rc != 0 || ol != len || memcmp(out, data, len)) { mon_viol(PROP, "churn-decode-wrong", "%s: decode (erased 0x%x) rc=%d%s", what, er, rc, rc ? "" : ", wrong bytes"); ok = 0; }
-        if (rc == 0) liberasurecode_decode_cleanup(d, out);
-        uint8_t *o = malloc(st.flen); rc = liberasurecode_reconstruct_fragment(d, lst, cnt, st.flen, 0, (char *)o);
-        if (rc != 0 || memcmp(o, st.frag[0], st.flen)) { mon_viol(PROP, "churn-reconstruct-wrong", "%s: reconstruct(0) (erased 0x%x) rc=%d", what, er, rc); ok = 0; }
-        free(o);
-    }
-    mon_count("evaluations", 5); mon_count("churn_instance_uses", 1);
-    stripe_free(&st); free(data);
-    return ok;
-}
+static int churn_use(const cfg_t *c, int d, uint64_t seed, const char *what) { return lec_use_instance(c, d, seed, what); }
 
 #include <link.h>
 #include <sys/mman.h>
@@ -1712,6 +1739,28 @@ static void run_instance_churn(void)
     }
 }
 
+/* ================================================================ populations (C01 / C04 / C19): every history of creates
+ * (twins included) and destroys (oldest, newest, middle) up to a length over a small pool of shapes, then longer random
+ * ones; every live instance is used after every step (lec_population) */
+static void run_population(int which)
+{
+    noise_stop();
+    int el = MO.thorough ? 6 : 5, walks = MO.thorough ? 400 : 32, wl = MO.thorough ? 48 : 28;
+    if (which == 1) {
+        static const cfg_t p1[] = { { EC_BACKEND_LIBERASURECODE_RS_VAND, 4, 2, 2, 0, CHKSUM_NONE }, { EC_BACKEND_LIBERASURECODE_RS_VAND, 3, 5, 5, 0, CHKSUM_CRC32 }, { EC_BACKEND_FLAT_XOR_HD, 10, 5, 3, 0, CHKSUM_NONE } };
+        lec_population(p1, 3, "rs+xor", el, walks, wl);
+        static const cfg_t p2[] = { { EC_BACKEND_JERASURE_RS_VAND, 4, 2, 2, 0, CHKSUM_NONE }, { EC_BACKEND_JERASURE_RS_CAUCHY, 3, 2, 2, 0, CHKSUM_NONE }, { EC_BACKEND_LIBPHAZR, 4, 2, 1, 0, CHKSUM_CRC32 }, { EC_BACKEND_SHSS, 4, 2, 2, 0, CHKSUM_CRC32 } };
+        lec_population(p2, 4, "adapters", el - 1, walks / 2, wl);
+    } else if (which == 4) {
+        /* a shape without parity takes part: it shares the arithmetic tables but never multiplies */
+        static const cfg_t p[] = { { EC_BACKEND_LIBERASURECODE_RS_VAND, 4, 2, 2, 0, CHKSUM_NONE }, { EC_BACKEND_LIBERASURECODE_RS_VAND, 6, 0, 0, 0, CHKSUM_NONE }, { EC_BACKEND_LIBERASURECODE_RS_VAND, 5, 3, 3, 0, CHKSUM_CRC32 } };
+        lec_population(p, 3, "rs-with-m0", el, walks, wl);
+    } else {
+        static const cfg_t p[] = { { EC_BACKEND_ISA_L_RS_VAND, 4, 2, 2, 0, CHKSUM_NONE }, { EC_BACKEND_ISA_L_RS_VAND, 6, 3, 3, 0, CHKSUM_CRC32 }, { EC_BACKEND_ISA_L_RS_CAUCHY, 6, 3, 3, 0, CHKSUM_NONE } };
+        lec_population(p, 3, "isa-l", el, walks, wl);
+    }
+}
+
 /* ================================================================ main */
 int main(int argc, char **argv)
 {
@@ -1723,20 +1772,20 @@ int main(int argc, char **argv)
     if (need_isal && !isal_available()) { mon_logf("HARNESS reference libisal.so.2 not loadable"); mon_finish(); return 2; }
     lec_env_legacy(0);
     if (MO.noise) noise_start();
-    if (!strcmp(PROP, "C01")) { run_roundtrip(isal_available() ? 3 : 1); run_long_sequence(); run_instance_churn(); }
+    if (!strcmp(PROP, "C01")) { run_roundtrip(isal_available() ? 3 : 1); run_long_sequence(); run_instance_churn(); run_population(1); }
     else if (!strcmp(PROP, "C02")) { run_nosilent(1); run_instance_churn(); }
     else if (!strcmp(PROP, "C03")) { run_reconstruct(1); run_direct_rs_plugin(); run_direct_backend_ops(1); run_long_sequence(); run_instance_churn(); }
-    else if (!strcmp(PROP, "C04")) { run_canonical(); run_long_sequence(); }
+    else if (!strcmp(PROP, "C04")) { run_canonical(); run_long_sequence(); run_population(4); }
     else if (!strcmp(PROP, "C05")) run_xor();
     else if (!strcmp(PROP, "C06")) run_needed(1);
     else if (!strcmp(PROP, "C20")) run_force(isal_available() ? 3 : 1);
     else if (!strcmp(PROP, "C19")) {
-        if (!strcmp(MO.mode, "roundtrip")) run_roundtrip(2);
+        if (!strcmp(MO.mode, "roundtrip")) { run_roundtrip(2); run_population(19); }
         else if (!strcmp(MO.mode, "nosilent")) run_nosilent(2);
         else if (!strcmp(MO.mode, "reconstruct")) { run_reconstruct(2); run_direct_backend_ops(2); }
         else if (!strcmp(MO.mode, "needed")) run_needed(2);
         else if (!strcmp(MO.mode, "faults")) run_isal_faults();
-        else { run_roundtrip(2); run_nosilent(2); run_reconstruct(2); run_needed(2); run_isal_faults(); }
+        else { run_roundtrip(2); run_nosilent(2); run_reconstruct(2); run_needed(2); run_isal_faults(); run_population(19); }
     } else { mon_logf("HARNESS unknown property %s", PROP); mon_finish(); return 2; }
     noise_stop();
     mon_finish();
